@@ -253,3 +253,98 @@ Definition obs0 (g : geom) : obs :=
 Definition env0 : env := mkEnv 0 false false.
 
 Definition holds_history (g : geom) (ops : list oop) (os : list obs) : bool := holds_from g env0 (obs0 g) ops os.
+
+(* ---- the getters that expose the flow-control state (harness line `gets`) ----
+   observation: (is_closed, is_connected, publication_limit(), available_window(), position(), term_id, term_offset) at hand-over
+   and after every operation, plus the getters fixed at construction.  The last two fields are the exclusive publication's own
+   cursor (0 for the shared publication). *)
+Definition gobs := (Z * Z * outcome Z * outcome Z * outcome Z * Z * Z)%type.
+Definition zb (b : bool) : Z := if b then 1 else 0.
+Definition go_win (o : gobs) : outcome Z := let '(_, _, _, win, _, _, _) := o in win.
+Definition go_pos (o : gobs) : outcome Z := let '(_, _, _, _, pos, _, _) := o in pos.
+
+(* one observation against the environment the history has set up: closed / connected flags as set, the limit as set,
+   available_window = limit - position (whenever that fits an i64), position inside the position space; closed: every
+   Result getter answers Closed; exclusive publication: position = (term_id - initial_term_id) * term_length + term_offset *)
+Definition holds_getters (g : geom) (excl : bool) (e : env) (o : gobs) : bool :=
+  let '(cl, cn, lim, win, pos, tid, toff) := o in
+  (cl =? zb (e_closed e)) && (cn =? zb (negb (e_closed e) && e_connected e)) &&
+  (if e_closed e then is_err lim Closed && is_err win Closed && is_err pos Closed
+   else out_eqb lim (Ok (e_limit e)) &&
+        match pos with
+        | Ok p => (0 <=? p) && (p <=? g_maxpos g) &&
+                  (if in_i64 (e_limit e - p) then out_eqb win (Ok (e_limit e - p)) else true) &&
+                  (if excl then (p =? wrap32 (tid - g_init g) * g_tlen g + toff) && (0 <=? toff) && (toff <=? g_tlen g) else true)
+        | _ => false
+        end).
+
+(* the getters fixed at construction *)
+Definition holds_statics (g : geom) (st : list Z) : bool :=
+  match st with
+  | [mm; mpl; tl; bits; init; ses; str] =>
+      (mm =? g_maxmsg g) && (mpl =? g_mpl g) && (tl =? g_tlen g) && (0 <=? bits) && (2 ^ bits =? g_tlen g) &&
+      (init =? g_init g) && (ses =? g_session g) && (str =? g_stream g)
+  | _ => false
+  end.
+
+(* from one observation to the next: the position never goes back; an offer / claim made while available_window() <= 0
+   does not advance it (flow control seen through the getters) *)
+Definition gets_link (o : oop) (p c : gobs) : bool :=
+  match go_pos p, go_pos c with
+  | Ok b, Ok q => (b <=? q) &&
+                  match o, go_win p with
+                  | OAppend _ _, Ok w => if w <=? 0 then q =? b else true
+                  | _, _ => true
+                  end
+  | _, _ => true
+  end.
+
+Fixpoint holds_gets_from (g : geom) (excl : bool) (e : env) (p : gobs) (ops : list oop) (os : list gobs) : bool :=
+  match ops, os with
+  | [], [] => true
+  | o :: ops', c :: os' =>
+      holds_getters g excl (env_after e o) c && gets_link o p c && holds_gets_from g excl (env_after e o) c ops' os'
+  | _, _ => false
+  end.
+
+Definition holds_gets (g : geom) (excl : bool) (ops : list oop) (r : list Z * list gobs) : bool :=
+  holds_statics g (fst r) &&
+  match snd r with
+  | o0 :: os => holds_getters g excl env0 o0 && out_eqb (go_pos o0) (Ok (g_n0 g * g_tlen g + g_off0 g)) && holds_gets_from g excl env0 o0 ops os
+  | [] => false
+  end.
+
+(* ---- claim + commit: the one BufferClaim a history holds ----
+   An accepted try_claim hands out the frame [off, off + required) of the active partition; commit() and abort() may change
+   words of that frame only (commit: the payload the caller wrote and the length word; abort: the type and the length word),
+   and nothing at all when no claim was ever accepted. *)
+Definition claim_of (g : geom) (cl : option (Z * Z * Z)) (o : oop) (p c : obs) : option (Z * Z * Z) :=
+  match o with
+  | OAppend KClaim len =>
+      match o_res c, o_pos p with
+      | Ok _, Ok b => Some (active (o_dump p), pos_off g (o_dump p) b, required g len)
+      | _, _ => cl
+      end
+  | _ => cl
+  end.
+
+Definition claim_words (cl : option (Z * Z * Z)) (dc : dump) : bool :=
+  match cl with
+  | None => no_words dc
+  | Some (i, off, req) =>
+      forallb (fun w => (off <=? fst w) && (fst w <? off + req)) (d_part dc i) &&
+      words_eqb (d_part dc ((i + 1) mod 3)) [] && words_eqb (d_part dc ((i + 2) mod 3)) []
+  end.
+
+Fixpoint holds_claims_from (g : geom) (cl : option (Z * Z * Z)) (p : obs) (ops : list oop) (os : list obs) : bool :=
+  match ops, os with
+  | [], [] => true
+  | o :: ops', c :: os' =>
+      (match o with OCommit | OAbort => claim_words cl (o_dump c) | _ => true end) &&
+      holds_claims_from g (claim_of g cl o p c) c ops' os'
+  | _, _ => false
+  end.
+
+(* the history predicate with the claim rule added *)
+Definition holds_history2 (g : geom) (ops : list oop) (os : list obs) : bool :=
+  holds_history g ops os && holds_claims_from g None (obs0 g) ops os.
